@@ -209,6 +209,10 @@ def run(tier, seed, replay=None):
         # pattern lowering (hir_lowering lower_matching_pattern / match / if-let / let): Gallina model + theorem, tied to the real HIR
         from checks import c01_pat
         c01_pat.pat(ck, tier, seed)
+        # pre-optimiser MIR stages (constant-parameter elimination, tail-recursion rewrite): Gallina mirrors + preservation
+        # theorems, tied term for term to the real stages through hooks
+        from checks import c01_mir
+        c01_mir.mir(ck, tier, seed)
     if ck.corr_fail and not replay:
         # the model no longer describes what the compiler does: search for a program on which the difference is observable
         # (every type of the generator's catalogue up to two generic levels, applied to every constructor path)
